@@ -124,3 +124,20 @@ package grpc
 //@ at call grpc.DialContext assert [credentials-user-agent-and-maybe-authority-nothing-else] len(arg(a2)) == 2 + ite(dialOptions.Authority != "", 1, 0)
 //@ ensures [the-dial-does-not-wait-for-the-target] calls(grpc.WithBlock) == 0
 //@ ensures conn == result_of(grpc.DialContext, 0) && err == result_of(grpc.DialContext, 1)
+
+//@ func NewGun
+//@ props C20 C17
+//@ ensures [a-gun-of-the-given-configuration] fresh(result) && result.Conf == conf && result.AnswLog == result_of(answlog.Init, 0) && result.Aggr == nil && result.Services == nil
+//@ at call answlog.Init assert [configured-log] arg(path) == conf.AnswLog.Path && arg(enabled) == conf.AnswLog.Enabled
+
+// The method table: one reflection connection (closed on every path), every method of every listed service under its full
+// name; a service the server does not know is skipped, every other failure is returned.
+//@ func (g *Gun) prepareMethodList
+//@ props C20
+//@ ensures [connection-failure-is-an-error] imp(result_of(g.makeReflectionConnect, 1) != nil, result1 != nil && result0 == nil)
+//@ ensures [the-reflection-connection-is-closed] imp(result_of(g.makeReflectionConnect, 1) == nil, calls(conn.Close) == 1)
+//@ ensures [listing-failure-is-an-error] imp(calls(refClient.ListServices) == 1 && result_of(refClient.ListServices, 1) != nil, result1 != nil && result0 == nil)
+//@ ensures [a-table-on-success] imp(result1 == nil, result0 != nil)
+//@ at call metadata.New assert [configured-reflection-metadata] arg(a0) == g.Conf.ReflectMetadata
+//@ loop 0 invariant services != nil
+//@ loop 1 invariant services != nil
